@@ -37,6 +37,8 @@ func init() {
 	for k, v := range map[string]externalFn{
 		"(reflect.Value).Bool":         ext۰reflect۰Value۰Bool,
 		"(reflect.Value).CanAddr":      ext۰reflect۰Value۰CanAddr,
+		"errors.As":                    extErrorsAs,
+		"errors.Is":                    extErrorsIs,
 		"(reflect.Value).CanInterface": ext۰reflect۰Value۰CanInterface,
 		"(reflect.Value).CanInt":       ext۰reflect۰Value۰CanInt,
 		"(reflect.Value).CanFloat":     ext۰reflect۰Value۰CanFloat,
